@@ -421,7 +421,11 @@ fn classify(n: &WalkNode, scope: Scope, msg: &str, stealing: bool) -> Option<Str
         // known finding: a partition-preserving TopK sort reports row counts as if it had one output partition and no shared threshold
         return Some("partitioned-topk-sort-statistics".into());
     }
-    if column_stat && is_join(&n.plan) {
+    let mark_join = is_join(&n.plan) && {
+        let d = walk::one_line_full(n.plan.as_ref());
+        d.contains("join_type=LeftMark") || d.contains("join_type=RightMark")
+    };
+    if column_stat && is_join(&n.plan) && !mark_join {
         // known finding: joins hand their inputs' column statistics on unchanged (Exact included)
         return Some("join-output-keeps-exact-column-statistics".into());
     }
@@ -438,6 +442,7 @@ fn classify(n: &WalkNode, scope: Scope, msg: &str, stealing: bool) -> Option<Str
         ),
         "ProjectionExec" => (if d.contains("CAST(") && stat == "min_max" { "[cast]" } else { "" }).to_string(),
         x if x.starts_with("SortExec") => (if d.contains("TopK(fetch=") { "[topk]" } else { "" }).to_string(),
+        x if x.contains("Join") => (if mark_join { "[mark]" } else { "" }).to_string(),
         "AggregateExec" => {
             let mode = d.split("mode=").nth(1).and_then(|r| r.split(',').next()).unwrap_or("");
             format!("[{mode}{}]", if d.contains("lim=[") { "+lim" } else { "" })
